@@ -437,6 +437,10 @@ def check(pid, tier, seed):
         print("note:", n_[:600])
     for d in disagreements[:3]:
         print("disagreement:", json.dumps(d)[:600])
+    # what failed, in the log itself: a replay file written on another machine (a fresh copy of the
+    # sandbox) cannot be fetched afterwards, the log line can
+    for cls, text, case in new_fail[:3]:
+        print(f"violation-detail: property={pid} class={cls} case=[{case}] what={text[:700]}")
     for path, suffix in violations:
         print(f"VIOLATION property={pid} replay={path}{suffix}")
     return 1 if violations else 0
